@@ -78,7 +78,10 @@ OnStep(e) ==
              v3 == IF e.nan_state THEN v2 \cup {"NoNaNAccepted"} ELSE v2
              v4a == IF s.lastAcc # NoT /\ ~(e.t > s.lastAcc) THEN v3 \cup {"AcceptedTimesIncrease"} ELSE v3
              (* the rule is the rule with the models' present time constants *)
-             v4 == V(v4a, e.mass_current, "StepUsesCurrentTimeConstants")
+             v4b == V(v4a, e.mass_current, "StepUsesCurrentTimeConstants")
+             (* C04: T (x1 - x0) = h (theta f1 + (1 - theta) f0) recomputed from the start and end values of the step, for every *)
+             (* state that no limiter reports as pegged                                                                        *)
+             v4 == V(v4b, e.rule_ok, "AcceptedStepSatisfiesImplicitRule")
          IN [s EXCEPT !.ph = "post", !.lastAcc = e.t, !.nacc = s.nacc + 1, !.storedThis = FALSE, !.viol = v4,
                       !.drift = D(D(s.drift, s.ph = "step", "order_step"), e.conv, "ret_is_converged")]
     ELSE [s EXCEPT !.ph = "rej", !.nrej = s.nrej + 1,
